@@ -12,3 +12,4 @@ import ServlinVerif.Props.C20
 import ServlinVerif.Props.C16
 import ServlinVerif.Props.C07
 import ServlinVerif.Props.C01
+import ServlinVerif.Props.C03
